@@ -102,7 +102,12 @@ def gen_s1(rng, tb=False):
             ops.append("EV %d %d" % (rng.randrange(65536), rng.getrandbits(64)))
         if tb and rng.random() < 0.25:
             fen = rng.choice(list(TB_FENS) + ["rnbqkbnr/pppppppp/8/8/8/8/PPPPPPPP/RNBQKBNR w KQkq - 0 1"] * 4)
-            ops.append("UPDTB %d %d | %s" % (rng.choice([-1, -1, 100, 2999, 3000, 10000]), TB_FENS.get(fen, -1), fen))
+            if fen in TB_FENS and rng.random() < 0.15:
+                ops.append("UPDTBA %d | %s" % (TB_FENS[fen], fen))       # generation aborted after 2 ms
+                ops.append("DUMPF")
+                ops.append(rng.choice(["UCI setoption name Clear Hash", "TTCLEAR", "UCI ucinewgame"]))   # probing a partial table is F4
+            else:
+                ops.append("UPDTB %d %d | %s" % (rng.choice([-1, -1, 100, 2999, 3000, 10000]), TB_FENS.get(fen, -1), fen))
             ops.append("DUMPF")
         elif not tb and rng.random() < 0.08:
             ops.append("DUMP")
@@ -231,7 +236,7 @@ def run_pair(exe, a, b, with_b2=False, search_timeout=300):
 
 
 def classes_of(tr, variant):
-    g_fix, e_fix, k_fix = variant
+    g_fix, e_fix, k_fix = variant[:3]
     c = set()
     if tr["probe_generation"] == 0 and not g_fix:
         c.add(KEY_F5)
@@ -249,7 +254,10 @@ def neutralise_generation(a, base_opts):
     n = len(a)
     for i, st in enumerate(a):
         if st["k"] == "clear" and i >= n - 4:
+            # a search between the two setoptions: pending options of the same name coalesce
+            # in EngineMainThread::pendingOptions until the engine thread has applied them
             out.append({"k": "opt", "name": "Hash", "value": alt})
+            out.append({"k": "go", "pos": "startpos", "go": "nodes 1", "mode": "wait", "wait": 0})
             out.append({"k": "opt", "name": "Hash", "value": h})
         out.append(st)
     return out
@@ -295,7 +303,7 @@ def make_jobs(ctx, positions, variant):
     rng = ctx.rng
     quick = ctx.quick
     budget = {"depth": 4, "nodes": 3000, "ms": 30} if quick else {"depth": 5, "nodes": 8000, "ms": 60}
-    probe_gos = (["depth 6", "depth 7", "depth 7", "depth 8", "nodes 8000", "nodes 30000", "nodes 60000"] if quick else
+    probe_gos = (["depth 6", "depth 7", "depth 7", "nodes 8000", "nodes 20000", "nodes 40000"] if quick else
                  ["depth 6", "depth 7", "depth 8", "depth 9", "depth 10", "depth 11", "nodes 30000", "nodes 100000", "nodes 300000"])
     plan = []
 
@@ -325,11 +333,11 @@ def make_jobs(ctx, positions, variant):
             add(k, "plain", H())
         for _ in range(7):
             add(rng.randint(1, 40), rng.choice(["plain", "options0", "options0", "related"]), H(), want="clean")
-        for _ in range(5):                          # F3 class
+        for fl in ("contempt", "related", "contempt", "related", "contempt"):     # F3 class
             base = H()
-            if rng.random() < 0.6:
+            if fl == "related" or rng.random() < 0.4:
                 base["Contempt"] = rng.choice(["25", "-40", "60"])
-            add(rng.randint(1, 12), rng.choice(["contempt", "related"]), base)
+            add(rng.randint(1, 12), fl, base)
         for _ in range(4):
             base = H()
             if rng.random() < 0.3:
@@ -365,7 +373,7 @@ def witness_jobs(variant, positions):
     searches; ..._refuted_evalcache: a search under a Contempt value that is reverted) turned
     into UCI sessions with probes known to be sensitive."""
     jobs = []
-    g_fix, e_fix, k_fix = variant
+    g_fix, e_fix, k_fix = variant[:3]
     corpus = os.path.join(VERIF, "corpus", "c14_probes.txt")
     probes = []
     if os.path.exists(corpus):
@@ -401,8 +409,9 @@ def end_to_end(ctx, exe, positions, variant):
         except S.EngineError as ex:
             return i, "error", str(ex)
         return i, "ok", (pa, pb, pb2)
+    order = sorted(enumerate(plan), key=lambda ij: -len(ij[1]["prior"]))      # longest sessions first
     with ThreadPoolExecutor(max_workers=NCPU) as ex:
-        results = list(ex.map(one, enumerate(plan)))
+        results = sorted(ex.map(one, order), key=lambda r: r[0])
     ctx.log("end-to-end: %d session pairs in %.1fs" % (len(plan), time.time() - t0))
     unexpected = []
     for (i, status, res) in results:
@@ -512,10 +521,10 @@ def run(ctx):
     vline = [l for l in out.split("\n") if l.startswith("V ")]
     if rc != 0 or not vline:
         raise RuntimeError("DETECT failed: rc=%d %s" % (rc, err[-500:]))
-    variant = tuple(int(x) for x in vline[0].split()[1:4])
+    variant = tuple(max(0, int(x)) for x in vline[0].split()[1:5])
     fixed = bool(variant[0] and (variant[1] or variant[2]))
     ctx.notes["variant"] = {"clear_resets_generation": variant[0], "clear_clears_evalcache": variant[1],
-                            "evalkey_has_contempt": variant[2], "detect_line": vline[0],
+                            "evalkey_has_contempt": variant[2], "tbabort_drops_tb": variant[3], "detect_line": vline[0],
                             "theorem_that_applies": "C14_clear_equiv_fresh" if fixed else
                             "C14_clear_diff_characterised + C14_clear_equiv_fresh_refuted" + ("" if variant[0] else " (generation)") +
                             ("" if (variant[1] or variant[2]) else " (+ _refuted_evalcache)")}
@@ -670,7 +679,7 @@ def replay(ctx, body):
         har = cbuild.build_harness("persist_harness", with_util=False, netfile=net, extra_srcs=APP_SRCS)
         drv = coqbuild.extract("ExtractPersist.v", "persist_driver.ml", "persist_driver")
         ops = r["disagreement"]["ops"]
-        bad, l1, l2 = run_ops(har, drv, tuple(r.get("variant", (0, 0, 0))), [ops])
+        bad, l1, l2 = run_ops(har, drv, tuple(r.get("variant", (0, 0, 0, 0))), [ops])
         print("ops:", ops)
         print("harness:", l1)
         print("model:  ", l2)
